@@ -108,6 +108,9 @@ def run(ctx):
         names = ['packer'] + ['committer%d' % i for i in range(len(scen['committers']))] + ['reader']
         if scen['second_packer']:
             names += ['packer2', 'packer3']
+        scen['lister'] = 2 if si % 3 == 0 else 0
+        if scen['lister']:
+            names += ['lister']
         cal = packconc.run((scen, 0, os.path.join(ctx.scratch, 'cal-%d' % si), {'plan': [], 'order': names, 'yield_io': yio}))
         for victim in names:
             others = [n for n in names if n != victim]
